@@ -424,6 +424,9 @@ def extract_model_operations(in_model):
 
       kernel_h, kernel_w, _, _ = weight.shape
 
+      # with groups > 1 each filter only sees channels_i / groups input channels
+      channels_i = channels_i // getattr(layer, "groups", 1)
+
       number_of_operations = (
           height_o * width_o * channels_o * kernel_h * kernel_w * channels_i)
 
